@@ -121,29 +121,32 @@ theorem C04_qmark_miss_is_empty (fuel : Nat) (cls : Cls) (kvs : List (Str × Val
     | none => simp [hl] at h; exact h.symm
 
 /-- **Totality (full statement, not proved).**  For every tree and every string, `get` returns
-normally.  On the pinned tree this is false for paths with a `new()` step (finding C04-a:
-`d.get('[new()]')` lets `KeyError` escape, `C04_new_keyerror_cex`) and for trees with a key named
-`*` (finding C04-d: the search never ends, `C04_star_key_diverges_cex`).  Proved away from
-`new()` up to the model-only outcomes: `C04_get_total_partial`. -/
+normally.  False for trees with a key named `*` (finding C04-d: the search never ends,
+`C04_star_key_diverges_cex`); the other counter-example, a `new()` step (finding C04-a), is repaired
+(`C04_new_root_is_miss`).  Proved for every path and tree up to the model-only outcomes:
+`C04_get_total_any_partial` (block at the end of the file); `C04_get_total_partial` is the earlier form
+with the `new()` hypotheses. -/
 def C04_get_total_stmt : Prop :=
   ∀ (t : Val) (s : Str) (d : Val), ∃ n, ∀ fuel ≥ n, ∃ v, (XPath.get fuel t s d).2 = .ok v
 
-/-- **Purity (full statement, not proved).**  No lookup changes the tree.  False on the pinned
-tree for paths with a `new()` step (finding C04-a); see `C04_new_writes_cex`.  Proved away from
-`new()`: `C04_pure_partial`. -/
+/-- **Purity (full statement).**  No lookup changes the tree.  Proved: `C04_pure` (block at the end of
+the file), after fix C04-a; before it a `new()` step rewrote a scalar into a list (now
+`C04_new_no_write`).  `C04_pure_partial` is the earlier form with the `new()` hypotheses. -/
 def C04_pure_stmt : Prop :=
   ∀ (t : Val) (s : Str) (d : Val) (fuel : Nat), (XPath.get fuel t s d).1 = t
 
 def exTree : Val := .dict .n0 [(['a'], .dict .n0 [(['e'], .int 1)])]
 
-/-- counter-example to purity: a lookup through `a/e[new()]` rewrites the scalar into a list -/
-theorem C04_new_writes_cex :
-    (XPath.get 20 exTree ['a', '/', 'e', '[', 'n', 'e', 'w', '(', ')', ']'] .none).1
-      = .dict .n0 [(['a'], .dict .n0 [(['e'], .list .n0 [.int 1])])] := by decide
+/-- (c03fix, fix C04-a) the former counter-example to purity: a lookup through `a/e[new()]` is a miss
+and leaves the scalar alone (it used to rewrite it into a list) -/
+theorem C04_new_no_write :
+    XPath.get 20 exTree ['a', '/', 'e', '[', 'n', 'e', 'w', '(', ')', ']'] (.str ['D']) = (exTree, .ok (.str ['D'])) := by
+  decide
 
-/-- counter-example to totality: `d.get('[new()]')` lets KeyError escape -/
-theorem C04_new_keyerror_cex :
-    (XPath.get 20 exTree ['[', 'n', 'e', 'w', '(', ')', ']'] .none).2 = .error .KeyError := by decide
+/-- (c03fix, fix C04-a) the former counter-example to totality: `d.get('[new()]')` returns the default
+(it used to let KeyError escape) -/
+theorem C04_new_root_is_miss :
+    XPath.get 20 exTree ['[', 'n', 'e', 'w', '(', ')', ']'] (.str ['D']) = (exTree, .ok (.str ['D'])) := by decide
 
 /-! Non-vacuity of the equations above. -/
 example : (XPath.get 20 exTree ['a', '/', 'z'] (.str ['D'])).2 = .ok (.str ['D']) := by decide
@@ -305,20 +308,22 @@ condition and when the token list is exhausted; `*` puts itself back in front of
 visits; a name on a list inserts `[*]`.  No measure on the token list alone decreases.  The proof
 (`Proofs/XPathTerm*.lean`) uses three facts: (1) the `found` text consists of `/key` and `[i]`
 pieces only (`TermFound`), so a re-resolution never meets `..`, `*`, a condition or `text()`
-again and costs at most `(W+4)·H + 2·pieces + 1` (`term_plain`); (2) every step that does not
+again and costs at most `(W+4)·H + 2·pieces + 1` (`term_plain`; a `[new()]` step is one such re-resolution); (2) every step that does not
 consume a token goes one level down in the tree (`termZ`, `termN`: recursion on the height);
 (3) `..` consumes its token and lengthens `found` by at most `2·H` pieces.  `termPot H W toks h g`
 is the resulting bound: a function of the tokens (their parse), the height `h` of the current node,
 the number `g` of pieces of `found`, and the height `H` and width `W` of the tree. -/
 
-/-- **Fuel bound.**  For a path without `new()` on a tree with plain-name keys, `termFuel t s` steps of
-fuel are enough for `get`, item access and `first`: none of them answers `OutOfFuel`. -/
-theorem C04_fuel_bound (t : Val) (s : Str) (hs : Safe s) (ht : PlainTree t) (fuel : Nat) (hf : termFuel t s ≤ fuel) (d : Val) :
+/-- **Fuel bound.**  For every path text on a tree with plain-name keys, `termFuel t s` steps of
+fuel are enough for `get`, item access and `first`: none of them answers `OutOfFuel`.  (Since fix
+C04-a a `new()` step ends the search after one re-resolution of `found`, so no hypothesis on the
+path is needed.) -/
+theorem C04_fuel_bound (t : Val) (s : Str) (ht : PlainTree t) (fuel : Nat) (hf : termFuel t s ≤ fuel) (d : Val) :
     (XPath.get fuel t s d).2 ≠ .error .OutOfFuel ∧ (getItem fuel t s).2 ≠ .error .OutOfFuel ∧
     (first fuel t s d).2 ≠ .error .OutOfFuel := by
-  refine ⟨term_getCore fuel t s d false true hs ht hf, term_getCore fuel t s Val.none true true hs ht hf, ?_⟩
+  refine ⟨term_getCore fuel t s d false true ht hf, term_getCore fuel t s Val.none true true ht hf, ?_⟩
   rw [C04_first_eq]
-  have := term_getCore fuel t s d false false hs ht hf
+  have := term_getCore fuel t s d false false ht hf
   cases h : getCore fuel t s d false false with
   | mk t' res =>
     rw [h] at this
@@ -326,41 +331,11 @@ theorem C04_fuel_bound (t : Val) (s : Str) (hs : Safe s) (ht : PlainTree t) (fue
     | ok v => simp
     | error e => simpa using this
 
-/-- **Termination**: the search ends — for every tree with plain-name keys and every string without
-`new()` there is a fuel from which on the model never answers `OutOfFuel`. -/
+/-- **Termination**: the search ends — for every tree with plain-name keys and every string there is a
+fuel from which on the model never answers `OutOfFuel` (the hypothesis `Safe s` of the statement is not
+used). -/
 theorem C04_fuel_enough : C04_fuel_enough_stmt :=
-  fun t s hs ht => ⟨termFuel t s, fun fuel hf d => (C04_fuel_bound t s hs ht fuel hf d).1⟩
-
-/-- **Totality.**  With enough fuel `get` and `first` return normally — the caller's default on a miss
-or an ill-formed path — for every string without `new()` on a tree with plain-name keys without
-`new()`; the only other outcome is the model's declared `Unsupported` (a float in a `text()`
-comparison, `%` in a quoted value, non-ASCII digits, …). -/
-theorem C04_get_total (t : Val) (s : Str) (d : Val) (hs : Safe s) (ht : SafeTree t) (hp : PlainTree t)
-    (fuel : Nat) (hf : termFuel t s ≤ fuel) :
-    ((∃ v, (XPath.get fuel t s d).2 = .ok v) ∨ (XPath.get fuel t s d).2 = .error .Unsupported) ∧
-    ((∃ v, (first fuel t s d).2 = .ok v) ∨ (first fuel t s d).2 = .error .Unsupported) := by
-  obtain ⟨h1, _, h3⟩ := C04_fuel_bound t s hs hp fuel hf d
-  obtain ⟨p1, p2⟩ := C04_get_total_partial fuel t s d hs ht
-  constructor
-  · rcases p1 with h | ⟨e, he, hm | hm⟩
-    · exact Or.inl h
-    · subst hm; exact absurd he h1
-    · subst hm; exact Or.inr he
-  · rcases p2 with h | ⟨e, he, hm | hm⟩
-    · exact Or.inl h
-    · subst hm; exact absurd he h3
-    · subst hm; exact Or.inr he
-
-/-- **Item access raises only the allowed classes.**  With enough fuel, item access raises one of
-KeyError/IndexError/ValueError/TypeError/SyntaxError (and nothing for a `?`-prefixed path), or the
-model declares the input `Unsupported`. -/
-theorem C04_getitem_errclass (t : Val) (s : Str) (e : PyErr) (hs : Safe s) (ht : SafeTree t) (hp : PlainTree t)
-    (fuel : Nat) (hf : termFuel t s ≤ fuel) (h : (getItem fuel t s).2 = .error e) :
-    (allowed e = true ∧ startsWith s ['?'] = false) ∨ e = .Unsupported := by
-  rcases C04_getitem_errclass_partial fuel t s e hs ht h with h' | hm | hm
-  · exact Or.inl h'
-  · subst hm; exact absurd h (C04_fuel_bound t s hs hp fuel hf Val.none).2.1
-  · exact Or.inr hm
+  fun t s _ ht => ⟨termFuel t s, fun fuel hf d => (C04_fuel_bound t s ht fuel hf d).1⟩
 
 /-! Non-vacuity of the partial theorems: the hypotheses hold for paths that exercise the
 `..`, `*`, `[*]`, condition, `text()` and index branches, and for a path that is not `NoW`
@@ -410,6 +385,95 @@ example : SafeRef NoNew exTree2 (.at []) := SafeRef_at exTree2_safe []
 example : ∀ t ∈ tokenize ['r', '[', 'i', 'd', '=', '2', ']', '/', 'w'], Safe t :=
   P_tokenize (P := NoNew) (by decide)
 
+/-! ## ===== block added by worker c03fix (fix C04-a) — begin =====
+
+After fix C04-a the `new()` step of `_find` writes nothing and raises no `KeyError`; the safety predicate
+of the proofs (`SafePred`) lost its clause "`new()` is not safe", so the always-true predicate is an
+instance (`AnyStr`) and the theorems above hold **without** `Safe s` / `SafeTree t`: for every path text
+and every tree. -/
+
+/-- **C04 purity, full statement, proved**: no `get` changes the tree — any tree, any string, any fuel. -/
+theorem C04_pure : C04_pure_stmt := by
+  intro t s d fuel
+  exact (getCore_any fuel t s d false true).1
+
+/-- **Purity of every lookup entry point** (item access, `get`, `first`; dict or list root; found or
+not; well-formed path or not; with or without a `new()` step). -/
+theorem C04_pure_all (fuel : Nat) (t : Val) (s : Str) (d : Val) :
+    (XPath.get fuel t s d).1 = t ∧ (getItem fuel t s).1 = t ∧ (first fuel t s d).1 = t := by
+  refine ⟨(getCore_any fuel t s d false true).1, (getCore_any fuel t s Val.none true true).1, ?_⟩
+  rw [C04_first_eq]
+  have := (getCore_any fuel t s d false false).1
+  cases h : getCore fuel t s d false false with
+  | mk t' res =>
+    rw [h] at this
+    cases res <;> exact this
+
+/-- the dict-side resolver itself returns the tree it was given — every token list, also with `new()` -/
+theorem C04_findD_pure (fuel : Nat) (root : Val) (sp : Pos) (entry rl : Bool) (toks : List Str) (par : PRef)
+    (found : Str) (root' : Val) (r : Res)
+    (h : findD fuel root sp false entry toks par rl found = .ok (root', r)) : root' = root := by
+  have := findD_any fuel root sp entry rl toks par found
+  rw [h] at this
+  exact this.1
+
+/-- **Totality up to the model-only outcomes, every path and tree**: `get` and `first` return normally;
+no Python exception class escapes (in particular no `KeyError` from a `new()` step).  What remains
+between this and `C04_get_total_stmt` is `OutOfFuel` (finding C04-d, fuel adequacy) and `Unsupported`. -/
+theorem C04_get_total_any_partial (fuel : Nat) (t : Val) (s : Str) (d : Val) :
+    ((∃ v, (XPath.get fuel t s d).2 = .ok v) ∨ ∃ e, (XPath.get fuel t s d).2 = .error e ∧ modelOnly e) ∧
+    ((∃ v, (first fuel t s d).2 = .ok v) ∨ ∃ e, (first fuel t s d).2 = .error e ∧ modelOnly e) := by
+  constructor
+  · have h := (getCore_any fuel t s d false true).2
+    unfold XPath.get
+    cases hr : (getCore fuel t s d false true).2 with
+    | ok v => exact Or.inl ⟨v, rfl⟩
+    | error e =>
+      right
+      rcases h e hr with ⟨hf, _⟩ | hm
+      · cases hf
+      · exact ⟨e, rfl, hm⟩
+  · have h := (getCore_any fuel t s d false false).2
+    rw [C04_first_eq]
+    cases hc : getCore fuel t s d false false with
+    | mk t' res =>
+      rw [hc] at h
+      cases res with
+      | ok v => exact Or.inl ⟨_, rfl⟩
+      | error e =>
+        right
+        rcases h e rfl with ⟨hf, _⟩ | hm
+        · cases hf
+        · exact ⟨e, rfl, hm⟩
+
+/-- **Item access raises only the allowed classes, every path and tree.** -/
+theorem C04_getitem_errclass_any_partial (fuel : Nat) (t : Val) (s : Str) (e : PyErr)
+    (h : (getItem fuel t s).2 = .error e) :
+    (allowed e = true ∧ startsWith s ['?'] = false) ∨ modelOnly e := by
+  rcases (getCore_any fuel t s Val.none true true).2 e h with ⟨_, hq, hc⟩ | hm
+  · left
+    refine ⟨?_, hq⟩
+    rcases hc with hc | rfl
+    · cases e <;> simp_all [allowed, caught]
+    · rfl
+  · exact Or.inr hm
+
+/-! Non-vacuity: the paths the hypotheses `Safe`/`SafeTree` used to exclude. -/
+example : ¬ Safe ['a', '/', 'e', '[', 'n', 'e', 'w', '(', ')', ']'] := by decide
+example : (XPath.get 20 exTree ['a', '/', 'e', '[', 'n', 'e', 'w', '(', ')', ']'] .none).1 = exTree :=
+  (C04_pure_all 20 exTree _ .none).1
+example : (getItem 20 exTree ['a', '/', 'e', '[', 'n', 'e', 'w', '(', ')', ']']) = (exTree, .error .IndexError) := by decide
+example : (first 20 exTree ['[', 'n', 'e', 'w', '(', ')', ']'] (.int 7)) = (exTree, .ok (.int 7)) := by decide
+/-- a tree with a key that contains the text `new()` (not `SafeTree`), reached through `*` -/
+example : (XPath.get 40 (.dict .n0 [(['a'], .dict .n0 [(['e', '[', 'n', 'e', 'w', '(', ')', ']'], .int 1), (['e'], .int 2)])])
+    ['a', '/', '*'] .none).1 = .dict .n0 [(['a'], .dict .n0 [(['e', '[', 'n', 'e', 'w', '(', ')', ']'], .int 1), (['e'], .int 2)])] :=
+  (C04_pure_all 40 _ _ .none).1
+/-- and `__setitem__` still creates through `new()` (the conversion has moved into `_add`) -/
+example : setItem 20 exTree ['a', '/', 'e', '[', 'n', 'e', 'w', '(', ')', ']'] (.int 5)
+    = (.dict .n0 [(['a'], .dict .n0 [(['e'], .list .n0 [.int 1, .int 5])])], .ok ()) := by decide
+
+/-! ## ===== block added by worker c03fix (fix C04-a) — end ===== -/
+
 /-! Non-vacuity of the termination theorems: `exTree2` has plain-name keys; the bound is a concrete
 number for the condition path (which goes through `[text()…]`, `..` and a re-resolution of `found`),
 for a `..` path and for a `*` path, and the model run with that fuel returns. -/
@@ -420,14 +484,53 @@ theorem exTree2_plain : PlainTree exTree2 := by
   repeat' apply And.intro
   all_goals exact hk _ (by decide) (by decide) (by decide)
 
+/-- **Totality.**  For ANY string xpath, on a tree with plain-name keys, with enough fuel `get` and
+`first` return normally — the caller's default on a miss or an ill-formed path; the only other outcome is
+the model's declared `Unsupported` (a float in a `text()` comparison, `%` in a quoted value,
+non-ASCII digits, …).  No hypothesis on the path; no `OutOfFuel` escape clause. -/
+theorem C04_get_total (t : Val) (s : Str) (d : Val) (hp : PlainTree t) (fuel : Nat) (hf : termFuel t s ≤ fuel) :
+    ((∃ v, (XPath.get fuel t s d).2 = .ok v) ∨ (XPath.get fuel t s d).2 = .error .Unsupported) ∧
+    ((∃ v, (first fuel t s d).2 = .ok v) ∨ (first fuel t s d).2 = .error .Unsupported) := by
+  obtain ⟨h1, _, h3⟩ := C04_fuel_bound t s hp fuel hf d
+  obtain ⟨p1, p2⟩ := C04_get_total_any_partial fuel t s d
+  constructor
+  · rcases p1 with h | ⟨e, he, hm | hm⟩
+    · exact Or.inl h
+    · subst hm; exact absurd he h1
+    · subst hm; exact Or.inr he
+  · rcases p2 with h | ⟨e, he, hm | hm⟩
+    · exact Or.inl h
+    · subst hm; exact absurd he h3
+    · subst hm; exact Or.inr he
+
+/-- **Item access raises only the allowed classes.**  For any string on a tree with plain-name keys, with
+enough fuel, item access raises one of KeyError/IndexError/ValueError/TypeError/SyntaxError (and nothing
+for a `?`-prefixed path), or the model declares the input `Unsupported`. -/
+theorem C04_getitem_errclass (t : Val) (s : Str) (e : PyErr) (hp : PlainTree t)
+    (fuel : Nat) (hf : termFuel t s ≤ fuel) (h : (getItem fuel t s).2 = .error e) :
+    (allowed e = true ∧ startsWith s ['?'] = false) ∨ e = .Unsupported := by
+  rcases C04_getitem_errclass_any_partial fuel t s e h with h' | hm | hm
+  · exact Or.inl h'
+  · subst hm; exact absurd h (C04_fuel_bound t s hp fuel hf Val.none).2.1
+  · exact Or.inr hm
+
 example : termFuel exTree2 ['r', '[', 'i', 'd', '=', '2', ']', '/', 'w'] = 122 := by decide +kernel
 example : termFuel exTree2 ['r', '[', '-', '1', ']', '/', '.', '.', '/', 'n', 'e', 'w'] = 135 := by decide +kernel
 example : termFuel exTree2 ['*', '/', 'x'] = 122 := by decide +kernel
 example : (XPath.get 122 exTree2 ['r', '[', 'i', 'd', '=', '2', ']', '/', 'w'] .none).2 = .ok (.list .n0 [.str ['y']]) := by
   decide +kernel
 example : (∃ v, (XPath.get 122 exTree2 ['*', '/', 'x'] (.str ['D'])).2 = .ok v) :=
-  ((C04_get_total exTree2 ['*', '/', 'x'] (.str ['D']) (by decide) exTree2_safe exTree2_plain 122 (by decide +kernel)).1).resolve_right
+  ((C04_get_total exTree2 ['*', '/', 'x'] (.str ['D']) exTree2_plain 122 (by decide +kernel)).1).resolve_right
     (by decide +kernel)
+-- a path with a `new()` step (not `Safe`): the bound covers it, `get` returns the default
+theorem exTree_plain : PlainTree exTree := by
+  have hk : ∀ k : Str, k ≠ [] → (∀ c ∈ k, plainChar c = true) → k ≠ ['.', '.'] → PlainKey k := fun _ a b c => ⟨a, b, c⟩
+  simp only [PlainTree, exTree, SafeKeys, SafeKeysK, and_true]
+  repeat' apply And.intro
+  all_goals exact hk _ (by decide) (by decide) (by decide)
+example : (XPath.get (termFuel exTree ['a', '/', 'e', '[', 'n', 'e', 'w', '(', ')', ']', '/', 'x']) exTree
+    ['a', '/', 'e', '[', 'n', 'e', 'w', '(', ')', ']', '/', 'x'] (.str ['D'])).2 = .ok (.str ['D']) := by decide +kernel
+example : ¬ Safe ['a', '/', 'e', '[', 'n', 'e', 'w', '(', ')', ']', '/', 'x'] := by decide
 -- the hypothesis on keys is needed: the diverging tree is not plain
 example : ¬ PlainTree starTree := by
   simp only [PlainTree, starTree, SafeKeys, SafeKeysK, and_true]
